@@ -27,6 +27,7 @@ E1 = {
     'C07': 'harness.c07_json',
     'C08': 'harness.c08_errors',
     'C09': 'harness.c09_resolver',
+    'C10': 'harness.c10_hooks',
     'C12': 'harness.c12_io',
     'C13': 'harness.c13_invariance',
     'C14': 'harness.c14_node',
